@@ -52,6 +52,11 @@ theorem RRel_bind {α β : Type} {R : α → α → Prop} {R' : β → β → Pr
     (hx : RRel R x x') (hk : ∀ a a', R a a' → RRel R' (k a) (k' a')) : RRel R' (x.bind k) (x'.bind k') := by
   cases x <;> cases x' <;> simp_all [RRel, Res.bind]
 
+theorem RRel_bind' {α β : Type} {R : α → α → Prop} {R' : β → β → Prop} {x x' : Res α} {k k' : α → Res β}
+    (hx : RRel R x x') (hk : ∀ a a', x = .ok a → x' = .ok a' → R a a' → RRel R' (k a) (k' a')) :
+    RRel R' (x.bind k) (x'.bind k') := by
+  cases x <;> cases x' <;> simp_all [RRel, Res.bind]
+
 theorem RRel_mono {α : Type} {R R' : α → α → Prop} {x x' : Res α}
     (hx : RRel R x x') (h : ∀ a a', R a a' → R' a a') : RRel R' x x' := by
   cases x <;> cases x' <;> simp_all [RRel]
@@ -88,5 +93,535 @@ theorem skipSpace_rel : ∀ (n : Nat) (r r' : List Byte) (line : Nat), r.length 
           by_cases hs : isSpace c = true
           · simp only [hs, if_true]; exact ih _ _ _ (by omega) ht
           · simp only [hs]; exact ⟨rfl, .cons c t t' hc ht⟩
+
+theorem hex4_rel (line : Nat) : ∀ (n : Nat) (k r r' : List Byte), Agree r r' →
+    RRel (fun x x' => x.1 = x'.1 ∧ Agree x.2 x'.2) (hex4 line n k r) (hex4 line n k r') := by
+  intro n
+  induction n with
+  | zero => intro k r r' h; exact ⟨rfl, h⟩
+  | succ n ih =>
+    intro k r r' h
+    cases h with
+    | nul j j' => simp [hex4, isHexDigit, isDigit, RRel]; exact .nul _ _
+    | cons c t t' hc ht =>
+      by_cases hx : isHexDigit c = true
+      · simp only [hex4, hx, if_true]; exact ih _ _ _ ht
+      · simp only [hex4, hx]; exact ⟨rfl, .cons c t t' hc ht⟩
+
+theorem hex4_len (line : Nat) : ∀ (n : Nat) (k r k' r' : List Byte), hex4 line n k r = .ok (k', r') →
+    r'.length ≤ r.length := by
+  intro n
+  induction n with
+  | zero => intro k r k' r' h; simp [hex4] at h; rw [h.2]; exact Nat.le_refl _
+  | succ n ih =>
+    intro k r k' r' h
+    cases r with
+    | nil => simp [hex4] at h
+    | cons c r =>
+      by_cases hx : isHexDigit c = true
+      · simp only [hex4, hx, if_true] at h
+        have := ih _ _ _ _ h
+        simp only [List.length_cons]; omega
+      · simp [hex4, hx] at h
+
+theorem litMatch_rel : ∀ (lit r r' : List Byte), (∀ c ∈ lit, c ≠ 0) → Agree r r' →
+    RRel (fun m m' => (m = none ∧ m' = none) ∨ ∃ x x', m = some x ∧ m' = some x' ∧ Agree x x')
+      (litMatch lit r) (litMatch lit r') := by
+  intro lit
+  induction lit with
+  | nil => intro r r' _ h; exact Or.inr ⟨r, r', rfl, rfl, h⟩
+  | cons l ls ih =>
+    intro r r' hl h
+    have hl0 : l ≠ 0 := hl l (List.mem_cons_self)
+    cases h with
+    | nul j j' =>
+      have : ¬ (0 : Nat) = l := fun e => hl0 e.symm
+      simp only [litMatch, this, if_false]; exact Or.inl ⟨rfl, rfl⟩
+    | cons c t t' hc ht =>
+      by_cases hcl : c = l
+      · simp only [litMatch, hcl, if_true]
+        exact ih _ _ (fun x hx => hl x (List.mem_cons_of_mem _ hx)) ht
+      · simp only [litMatch, hcl, if_false]; exact Or.inl ⟨rfl, rfl⟩
+
+theorem numLoop_rel : ∀ (r r' n : List Byte) (dbl : Bool), Agree r r' →
+    RRel (fun x x' => x.1 = x'.1 ∧ x.2.1 = x'.2.1 ∧ Agree x.2.2 x'.2.2) (numLoop n dbl r) (numLoop n dbl r') := by
+  intro r
+  induction r with
+  | nil => intro r' n dbl h; cases h
+  | cons c t ih =>
+    intro r' n dbl h
+    cases h with
+    | nul j j' => simp [numLoop, isDigit, RRel]; exact .nul _ _
+    | cons c t t' hc ht =>
+      rw [numLoop, numLoop]
+      by_cases h1 : c = 69 ∨ c = 101 ∨ c = 45 ∨ c = 43
+      · rw [if_pos h1, if_pos h1]; exact ih _ _ _ ht
+      · rw [if_neg h1, if_neg h1]
+        by_cases h2 : c = 46
+        · rw [if_pos h2, if_pos h2]; exact ih _ _ _ ht
+        · rw [if_neg h2, if_neg h2]
+          by_cases h3 : isDigit c = true
+          · rw [if_pos h3, if_pos h3]; exact ih _ _ _ ht
+          · rw [if_neg h3, if_neg h3]; exact ⟨rfl, rfl, .cons c t t' hc ht⟩
+
+def StrRel (x x' : Nat × List Byte × List Byte) : Prop := x.1 = x'.1 ∧ x.2.1 = x'.2.1 ∧ Agree x.2.2 x'.2.2
+
+theorem readStr_rel : ∀ (f f' line : Nat) (acc r r' : List Byte), r.length ≤ f → r'.length ≤ f' → Agree r r' →
+    RRel StrRel (readStr f line acc r) (readStr f' line acc r') := by
+  intro f
+  induction f with
+  | zero => intro f' line acc r r' hl _ h; cases h <;> simp at hl
+  | succ f ih =>
+    intro f' line acc r r' hl hl' h
+    cases f' with
+    | zero => cases h <;> simp at hl'
+    | succ f' =>
+      cases h with
+      | nul j j' =>
+        rw [readStr_cons, readStr_cons]; simp only [if_true]; exact ⟨rfl, .nul _ _⟩
+      | cons c t t' hc ht =>
+        simp only [List.length_cons] at hl hl'
+        rw [readStr_cons, readStr_cons]
+        rw [if_neg hc, if_neg hc]
+        by_cases h13 : c = 13
+        · rw [if_pos h13, if_pos h13]
+          cases ht with
+          | nul j j' =>
+            simp only [List.length_cons] at hl hl'
+            simp only [(by decide : (0:Nat) ≠ 10), if_false]
+            exact ih _ _ _ _ _ (by simp only [List.length_cons]; omega) (by simp only [List.length_cons]; omega) (.nul _ _)
+          | cons d u u' hd hu =>
+            simp only [List.length_cons] at hl hl'
+            by_cases hd10 : d = 10
+            · simp only [hd10, if_true]; exact ih _ _ _ _ _ (by omega) (by omega) hu
+            · simp only [hd10, if_false]
+              exact ih _ _ _ _ _ (by simp only [List.length_cons]; omega) (by simp only [List.length_cons]; omega)
+                (.cons d u u' hd hu)
+        rw [if_neg h13, if_neg h13]
+        by_cases h10 : c = 10
+        · rw [if_pos h10, if_pos h10]; exact ih _ _ _ _ _ (by omega) (by omega) ht
+        rw [if_neg h10, if_neg h10]
+        by_cases h92 : c = 92
+        · rw [if_pos h92, if_pos h92]
+          cases ht with
+          | nul j j' =>
+            simp only [List.length_cons] at hl hl'
+            simp only [(by decide : ¬((0:Nat) = 34 ∨ (0:Nat) = 92 ∨ (0:Nat) = 47)), (by decide : (0:Nat) ≠ 98),
+              (by decide : (0:Nat) ≠ 102), (by decide : (0:Nat) ≠ 110), (by decide : (0:Nat) ≠ 114),
+              (by decide : (0:Nat) ≠ 116), (by decide : (0:Nat) ≠ 117), if_false]
+            exact ih _ _ _ _ _ (by simp only [List.length_cons]; omega) (by simp only [List.length_cons]; omega) (.nul _ _)
+          | cons e u u' he hu =>
+            simp only [List.length_cons] at hl hl'
+            have recur : ∀ a : List Byte, RRel StrRel (readStr f line a u) (readStr f' line a u') :=
+              fun a => ih _ _ _ _ _ (by omega) (by omega) hu
+            by_cases e1 : e = 34 ∨ e = 92 ∨ e = 47
+            · simp only [e1, if_true]; exact recur _
+            simp only [e1, if_false]
+            by_cases e2 : e = 98
+            · simp only [e2, if_true]; exact recur _
+            simp only [e2, if_false]
+            by_cases e3 : e = 102
+            · simp only [e3, if_true]; exact recur _
+            simp only [e3, if_false]
+            by_cases e4 : e = 110
+            · simp only [e4, if_true]; exact recur _
+            simp only [e4, if_false]
+            by_cases e5 : e = 114
+            · simp only [e5, if_true]; exact recur _
+            simp only [e5, if_false]
+            by_cases e6 : e = 116
+            · simp only [e6, if_true]; exact recur _
+            simp only [e6, if_false]
+            by_cases e7 : e = 117
+            · simp only [e7, if_true]
+              refine RRel_bind' (hex4_rel line 4 [] u u' hu) ?_
+              intro ⟨k, r2⟩ ⟨k', r2'⟩ hx hx' ⟨hk, ha2⟩
+              simp only at hk ha2 ⊢
+              subst hk
+              have hl2 := hex4_len _ _ _ _ _ _ hx
+              have hl2' := hex4_len _ _ _ _ _ _ hx'
+              by_cases hs : scanHex k &&& 0xF800 = 0xD800 ∧ scanHex k &&& 0xFC00 = 0xD800
+              · simp only [hs, and_self, if_true]
+                cases ha2 with
+                | nul j j' => simp only [ne_eq, (by decide : ¬(0:Nat) = 92), not_false_eq_true, if_true]; exact ⟨rfl, .nul _ _⟩
+                | cons b1 r3 r3' hb1 ha3 =>
+                  by_cases q1 : b1 = 92
+                  · subst q1
+                    simp only [ne_eq, not_true_eq_false, if_false]
+                    cases ha3 with
+                    | nul j j' =>
+                      simp only [ne_eq, (by decide : ¬(0:Nat) = 117), not_false_eq_true, if_true]
+                      exact ⟨rfl, .cons 92 _ _ hb1 (.nul _ _)⟩
+                    | cons b2 r4 r4' hb2 ha4 =>
+                      by_cases q2 : b2 = 117
+                      · subst q2
+                        simp only [ne_eq, not_true_eq_false, if_false]
+                        refine RRel_bind' (hex4_rel line 4 [] r4 r4' ha4) ?_
+                        intro ⟨k2, r5⟩ ⟨k2', r5'⟩ hy hy' ⟨hk2, ha5⟩
+                        simp only at hk2 ha5 ⊢
+                        subst hk2
+                        have hl5 := hex4_len _ _ _ _ _ _ hy
+                        have hl5' := hex4_len _ _ _ _ _ _ hy'
+                        simp only [List.length_cons] at hl2 hl2'
+                        by_cases hw : scanHex k2 &&& 0xFC00 ≠ 0xDC00
+                        · simp only [hw, if_true]
+                          exact ⟨rfl, .cons 92 _ _ hb1 (.cons 117 _ _ hb2 ha4)⟩
+                        · simp only [hw, if_false]
+                          exact ih _ _ _ _ _ (by omega) (by omega) ha5
+                      · simp only [ne_eq, q2, not_false_eq_true, if_true]
+                        exact ⟨rfl, .cons 92 _ _ hb1 (.cons b2 _ _ hb2 ha4)⟩
+                  · simp only [ne_eq, q1, not_false_eq_true, if_true]
+                    exact ⟨rfl, .cons b1 _ _ hb1 ha3⟩
+              · simp only [hs, if_false]
+                exact ih _ _ _ _ _ (by omega) (by omega) ha2
+            · simp only [e7, if_false]
+              exact ih _ _ _ _ _ (by simp only [List.length_cons]; omega) (by simp only [List.length_cons]; omega)
+                (.cons e u u' he hu)
+        rw [if_neg h92, if_neg h92]
+        by_cases h34 : c = 34
+        · rw [if_pos h34, if_pos h34]; exact ⟨rfl, rfl, ht⟩
+        rw [if_neg h34, if_neg h34]
+        exact ih _ _ _ _ _ (by omega) (by omega) ht
+
+def StRel (st st' : St) : Prop := st.tok = st'.tok ∧ st.val = st'.val ∧ st.line = st'.line ∧ Agree st.r st'.r
+
+theorem lit_rel (line : Nat) (lit : List Byte) (c : Byte) (t t' : List Byte) (tk : Byte) (v : Val)
+    (hlit : ∀ x ∈ lit, x ≠ 0) (h : Agree (c :: t) (c :: t')) :
+    RRel StRel
+      ((litMatch lit (c :: t)).bind fun m =>
+        match m with
+        | some r'' => .ok ⟨tk, v, line, r''⟩
+        | none => .fail line (c :: t))
+      ((litMatch lit (c :: t')).bind fun m =>
+        match m with
+        | some r'' => .ok ⟨tk, v, line, r''⟩
+        | none => .fail line (c :: t')) := by
+  refine RRel_bind (litMatch_rel lit _ _ hlit h) ?_
+  intro m m' hm
+  rcases hm with ⟨h1, h2⟩ | ⟨x, x', h1, h2, hx⟩
+  · subst h1; subst h2; exact ⟨rfl, h⟩
+  · subst h1; subst h2; exact ⟨rfl, rfl, rfl, hx⟩
+
+theorem readToken_rel (line : Nat) (r r' : List Byte) (h : Agree r r') :
+    RRel StRel (readToken line r) (readToken line r') := by
+  unfold readToken
+  refine RRel_bind (skipSpace_rel r.length r r' line (Nat.le_refl _) h) ?_
+  intro ⟨l1, r1⟩ ⟨l1', r1'⟩ ⟨hl, ha⟩
+  simp only at hl ha ⊢
+  subst hl
+  cases ha with
+  | nul j j' => simp only [if_true]; exact ⟨rfl, rfl, rfl, .nul _ _⟩
+  | cons c t t' hc ht =>
+    simp only [hc, if_false]
+    by_cases hp1 : c = 123 ∨ c = 125 ∨ c = 91 ∨ c = 93 ∨ c = 44 ∨ c = 58
+    · simp only [hp1, if_true]; exact ⟨rfl, rfl, rfl, ht⟩
+    simp only [hp1, if_false]
+    by_cases h34 : c = 34
+    · simp only [h34, if_true]
+      refine RRel_bind (readStr_rel _ _ l1 [] t t' (Nat.le_refl _) (Nat.le_refl _) ht) ?_
+      intro ⟨a1, a2, a3⟩ ⟨b1, b2, b3⟩ ⟨e1, e2, e3⟩
+      simp only at e1 e2 e3 ⊢
+      subst e1; subst e2
+      exact ⟨rfl, rfl, rfl, e3⟩
+    simp only [h34, if_false]
+    have hA : Agree (c :: t) (c :: t') := .cons c t t' hc ht
+    by_cases h116 : c = 116
+    · simp only [h116, if_true]
+      rw [h116] at hA
+      exact lit_rel l1 _ 116 t t' 116 _ (by intro x hx; simp at hx; omega) hA
+    simp only [h116, if_false]
+    by_cases h102 : c = 102
+    · simp only [h102, if_true]
+      rw [h102] at hA
+      exact lit_rel l1 _ 102 t t' 102 _ (by intro x hx; simp at hx; omega) hA
+    simp only [h102, if_false]
+    by_cases h110 : c = 110
+    · simp only [h110, if_true]
+      rw [h110] at hA
+      exact lit_rel l1 _ 110 t t' 110 _ (by intro x hx; simp at hx; omega) hA
+    simp only [h110, if_false]
+    by_cases hnum : c = 45 ∨ isDigit c = true
+    · simp only [hnum, if_true]
+      refine RRel_bind (numLoop_rel _ _ [] false hA) ?_
+      intro ⟨a1, a2, a3⟩ ⟨b1, b2, b3⟩ ⟨e1, e2, e3⟩
+      simp only at e1 e2 e3 ⊢
+      subst e1; subst e2
+      exact ⟨rfl, rfl, rfl, e3⟩
+    · simp only [hnum, if_false]
+      exact ⟨rfl, hA⟩
+
+def VRel (x x' : Val × St) : Prop := x.1 = x'.1 ∧ StRel x.2 x'.2
+
+theorem next_rel {st st' : St} (h : StRel st st') : RRel StRel st.next st'.next := by
+  obtain ⟨_, _, hl, ha⟩ := h
+  unfold St.next; rw [hl]; exact readToken_rel _ _ _ ha
+
+theorem parser_rel : ∀ f : Nat,
+    (∀ st st', StRel st st' → RRel VRel (parseValue f st) (parseValue f st')) ∧
+    (∀ acc st st', StRel st st' → RRel VRel (arrLoop f acc st) (arrLoop f acc st')) ∧
+    (∀ acc st st', StRel st st' → RRel VRel (objLoop f acc st) (objLoop f acc st')) := by
+  intro f
+  induction f with
+  | zero =>
+    refine ⟨?_, ?_, ?_⟩
+    · intro st st' _; simp [parseValue, RRel]
+    · intro acc st st' _; simp [arrLoop, RRel]
+    · intro acc st st' _; simp [objLoop, RRel]
+  | succ f ih =>
+    obtain ⟨ihV, ihA, ihO⟩ := ih
+    refine ⟨?_, ?_, ?_⟩
+    · intro st st' h
+      have ht : st.tok = st'.tok := h.1
+      have hv : st.val = st'.val := h.2.1
+      rw [parseValue, parseValue, ← ht]
+      by_cases hs : isScalarTok st.tok = true
+      · simp only [hs, if_true]
+        refine RRel_bind (next_rel h) ?_
+        intro a a' ha; exact ⟨hv, ha⟩
+      simp only [hs]
+      by_cases h91 : st.tok = 91
+      · simp only [h91, if_true]
+        exact RRel_bind (next_rel h) (fun a a' ha => ihA [] a a' ha)
+      by_cases h123 : st.tok = 123
+      · simp only [h123, if_true]
+        exact RRel_bind (next_rel h) (fun a a' ha => ihO [] a a' ha)
+      · simp only [h91, h123, if_false]
+        exact ⟨h.2.2.1, h.2.2.2⟩
+    · intro acc st st' h
+      have ht : st.tok = st'.tok := h.1
+      rw [arrLoop, arrLoop, ← ht]
+      by_cases h93 : st.tok = 93
+      · simp only [h93, if_true]
+        refine RRel_bind (next_rel h) ?_
+        intro a a' ha; exact ⟨rfl, ha⟩
+      simp only [h93, if_false]
+      refine RRel_bind (ihV st st' h) ?_
+      intro ⟨v, st1⟩ ⟨v', st1'⟩ ⟨hvv, h1⟩
+      simp only at hvv h1 ⊢
+      subst hvv
+      have ht1 : st1.tok = st1'.tok := h1.1
+      rw [← ht1]
+      by_cases q93 : st1.tok = 93
+      · simp only [q93, if_true]
+        refine RRel_bind (next_rel h1) ?_
+        intro a a' ha; exact ⟨rfl, ha⟩
+      simp only [q93, if_false]
+      by_cases q44 : st1.tok ≠ 44
+      · rw [if_pos q44, if_pos q44]; exact ⟨h1.2.2.1, h1.2.2.2⟩
+      rw [if_neg q44, if_neg q44]
+      exact RRel_bind (next_rel h1) (fun a a' ha => ihA _ a a' ha)
+    · intro acc st st' h
+      have ht : st.tok = st'.tok := h.1
+      have hv : st.val = st'.val := h.2.1
+      rw [objLoop, objLoop, ← ht, ← hv]
+      by_cases h125 : st.tok = 125
+      · simp only [h125, if_true]
+        refine RRel_bind (next_rel h) ?_
+        intro a a' ha; exact ⟨rfl, ha⟩
+      simp only [h125, if_false]
+      by_cases h34 : st.tok ≠ 34
+      · rw [if_pos h34, if_pos h34]; exact ⟨h.2.2.1, h.2.2.2⟩
+      rw [if_neg h34, if_neg h34]
+      refine RRel_bind (next_rel h) ?_
+      intro st1 st1' h1
+      have ht1 : st1.tok = st1'.tok := h1.1
+      rw [← ht1]
+      by_cases q58 : st1.tok ≠ 58
+      · rw [if_pos q58, if_pos q58]; exact ⟨h1.2.2.1, h1.2.2.2⟩
+      rw [if_neg q58, if_neg q58]
+      refine RRel_bind (next_rel h1) ?_
+      intro st2 st2' h2
+      refine RRel_bind (ihV st2 st2' h2) ?_
+      intro ⟨v, st3⟩ ⟨v', st3'⟩ ⟨hvv, h3⟩
+      simp only at hvv h3 ⊢
+      subst hvv
+      have ht3 : st3.tok = st3'.tok := h3.1
+      rw [← ht3]
+      by_cases q125 : st3.tok = 125
+      · simp only [q125, if_true]
+        refine RRel_bind (next_rel h3) ?_
+        intro a a' ha; exact ⟨rfl, ha⟩
+      simp only [q125, if_false]
+      by_cases q44 : st3.tok ≠ 44
+      · rw [if_pos q44, if_pos q44]; exact ⟨h3.2.2.1, h3.2.2.2⟩
+      rw [if_neg q44, if_neg q44]
+      exact RRel_bind (next_rel h3) (fun a a' ha => ihO _ a a' ha)
+
+/-! ### more fuel does not change a result -/
+
+theorem bind_mono {α β : Type} {x x' : Res α} {k k' : α → Res β}
+    (h : x.bind k ≠ .nofuel) (hx : x ≠ .nofuel → x' = x)
+    (hk : ∀ a, x = .ok a → k a ≠ .nofuel → k' a = k a) : x'.bind k' = x.bind k := by
+  cases x with
+  | ok a =>
+    rw [hx (by simp)]
+    simp only [Res.bind] at h ⊢
+    exact hk a rfl h
+  | fail l p => rw [hx (by simp)]; rfl
+  | oob => rw [hx (by simp)]; rfl
+  | nofuel => simp [Res.bind] at h
+
+theorem parser_mono : ∀ f : Nat,
+    (∀ st, parseValue f st ≠ .nofuel → parseValue (f + 1) st = parseValue f st) ∧
+    (∀ acc st, arrLoop f acc st ≠ .nofuel → arrLoop (f + 1) acc st = arrLoop f acc st) ∧
+    (∀ acc st, objLoop f acc st ≠ .nofuel → objLoop (f + 1) acc st = objLoop f acc st) := by
+  intro f
+  induction f with
+  | zero =>
+    refine ⟨?_, ?_, ?_⟩
+    · intro st h; simp [parseValue] at h
+    · intro acc st h; simp [arrLoop] at h
+    · intro acc st h; simp [objLoop] at h
+  | succ f ih =>
+    obtain ⟨ihV, ihA, ihO⟩ := ih
+    refine ⟨?_, ?_, ?_⟩
+    · intro st h
+      rw [parseValue] at h
+      rw [parseValue, parseValue]
+      by_cases hs : isScalarTok st.tok = true
+      · simp only [hs, if_true]
+      simp only [hs] at h ⊢
+      by_cases h91 : st.tok = 91
+      · simp only [h91, if_true] at h ⊢
+        exact bind_mono h (fun _ => rfl) (fun a _ ha => ihA [] a ha)
+      by_cases h123 : st.tok = 123
+      · simp only [h123, if_true] at h ⊢
+        exact bind_mono h (fun _ => rfl) (fun a _ ha => ihO [] a ha)
+      · simp only [h91, h123, if_false]
+    · intro acc st h
+      rw [arrLoop] at h
+      rw [arrLoop, arrLoop]
+      by_cases h93 : st.tok = 93
+      · simp only [h93, if_true]
+      simp only [h93, if_false] at h ⊢
+      refine bind_mono h (fun hx => ihV st hx) ?_
+      intro ⟨v, st1⟩ _ ha
+      simp only at ha ⊢
+      by_cases q93 : st1.tok = 93
+      · simp only [q93, if_true]
+      simp only [q93, if_false] at ha ⊢
+      by_cases q44 : st1.tok ≠ 44
+      · rw [if_pos q44]; rw [if_pos q44]
+      rw [if_neg q44] at ha
+      rw [if_neg q44, if_neg q44]
+      exact bind_mono ha (fun _ => rfl) (fun a _ hb => ihA _ a hb)
+    · intro acc st h
+      rw [objLoop] at h
+      rw [objLoop, objLoop]
+      by_cases h125 : st.tok = 125
+      · simp only [h125, if_true]
+      simp only [h125, if_false] at h ⊢
+      by_cases h34 : st.tok ≠ 34
+      · rw [if_pos h34, if_pos h34]
+      rw [if_neg h34] at h
+      rw [if_neg h34, if_neg h34]
+      refine bind_mono h (fun _ => rfl) ?_
+      intro st1 _ h1
+      by_cases q58 : st1.tok ≠ 58
+      · rw [if_pos q58, if_pos q58]
+      rw [if_neg q58] at h1
+      rw [if_neg q58, if_neg q58]
+      refine bind_mono h1 (fun _ => rfl) ?_
+      intro st2 _ h2
+      refine bind_mono h2 (fun hx => ihV st2 hx) ?_
+      intro ⟨v, st3⟩ _ h3
+      simp only at h3 ⊢
+      by_cases q125 : st3.tok = 125
+      · simp only [q125, if_true]
+      simp only [q125, if_false] at h3 ⊢
+      by_cases q44 : st3.tok ≠ 44
+      · rw [if_pos q44]; rw [if_pos q44]
+      rw [if_neg q44] at h3
+      rw [if_neg q44, if_neg q44]
+      exact bind_mono h3 (fun _ => rfl) (fun a _ hb => ihO _ a hb)
+
+theorem parseValue_mono_add (f : Nat) (st : St) (h : parseValue f st ≠ .nofuel) :
+    ∀ k, parseValue (f + k) st = parseValue f st := by
+  intro k
+  induction k with
+  | zero => rfl
+  | succ k ih =>
+    have := (parser_mono (f + k)).1 st (by rw [ih]; exact h)
+    rw [← Nat.add_assoc, this, ih]
+
+theorem Pos.column_eq {buf : List Byte} {l : Nat} {p : List Byte} (h : Pos buf l p) :
+    column buf p = colOf (cstr buf) ((cstr buf).length - (cstr p).length) := by
+  obtain ⟨q, hb, _, hq, _, _⟩ := h
+  have hq' : 0 ∉ q.reverse := by simpa using hq
+  have hc : cstr buf = q.reverse ++ cstr p := by rw [hb]; exact cstr_append_nf _ _ hq'
+  have hlen : (cstr buf).length - (cstr p).length = q.reverse.length := by rw [hc]; simp
+  have : buf.length - p.length = q.reverse.length := by rw [hb]; simp
+  unfold column colOf
+  rw [this, hlen, hc]
+  conv => lhs; rw [hb]
+  simp [isBreak]
+
+theorem column_agree {buf buf' p p' : List Byte} {l l' : Nat} (h : Pos buf l p) (h' : Pos buf' l' p')
+    (hb : Agree buf buf') (hp : Agree p p') : column buf p = column buf' p' := by
+  rw [h.column_eq, h'.column_eq, hb.cstr_eq, hp.cstr_eq]
+
+/-- the parser cannot tell two buffers apart that agree up to their first NUL -/
+theorem parse_agree (buf buf' : List Byte) (h : Agree buf buf') : parse buf = parse buf' := by
+  have hT := readToken_rel 1 buf buf' h
+  have h1 := readToken_post buf 1 buf (Pos.init buf h.mem.1)
+  have h1' := readToken_post buf' 1 buf' (Pos.init buf' h.mem.2)
+  unfold parse
+  cases hr : readToken 1 buf with
+  | ok st =>
+    cases hr' : readToken 1 buf' with
+    | ok st' =>
+      rw [hr, hr'] at hT
+      rw [hr] at h1; rw [hr'] at h1'
+      have hm : ∀ (b : List Byte) (s : St), TokPost b b.length s → 2 * meas s + 1 ≤ parseFuel b := by
+        intro b s ⟨_, hl, hlt⟩
+        unfold meas parseFuel
+        by_cases h0 : s.tok = 0
+        · simp only [h0, if_true]; omega
+        · simp only [h0, if_false]; have := hlt h0; omega
+      have h2 := (parser_post buf (parseFuel buf)).1 st h1.1 (hm buf st h1)
+      have h2' := (parser_post buf' (parseFuel buf')).1 st' h1'.1 (hm buf' st' h1')
+      have n2 : parseValue (parseFuel buf) st ≠ .nofuel := by
+        intro e; rw [e] at h2; exact h2
+      have n2' : parseValue (parseFuel buf') st' ≠ .nofuel := by
+        intro e; rw [e] at h2'; exact h2'
+      have e1 := parseValue_mono_add _ st n2 (parseFuel buf')
+      have e2 := parseValue_mono_add _ st' n2' (parseFuel buf)
+      have hR := (parser_rel (parseFuel buf + parseFuel buf')).1 st st' hT
+      rw [e1, Nat.add_comm, e2] at hR
+      simp only
+      cases hv : parseValue (parseFuel buf) st with
+      | ok x =>
+        cases hv' : parseValue (parseFuel buf') st' with
+        | ok x' => rw [hv, hv'] at hR; simp only; rw [hR.1]
+        | fail l p => rw [hv, hv'] at hR; exact hR.elim
+        | oob => rw [hv, hv'] at hR; exact hR.elim
+        | nofuel => rw [hv, hv'] at hR; exact hR.elim
+      | fail l p =>
+        cases hv' : parseValue (parseFuel buf') st' with
+        | ok x' => rw [hv, hv'] at hR; exact hR.elim
+        | fail l' p' =>
+          rw [hv, hv'] at hR
+          rw [hv] at h2; rw [hv'] at h2'
+          simp only
+          rw [hR.1, column_agree h2 h2' h hR.2]
+        | oob => rw [hv, hv'] at hR; exact hR.elim
+        | nofuel => rw [hv, hv'] at hR; exact hR.elim
+      | oob => rw [hv] at h2; exact h2.elim
+      | nofuel => exact absurd hv n2
+    | fail l p => rw [hr, hr'] at hT; exact hT.elim
+    | oob => rw [hr, hr'] at hT; exact hT.elim
+    | nofuel => rw [hr, hr'] at hT; exact hT.elim
+  | fail l p =>
+    cases hr' : readToken 1 buf' with
+    | ok st' => rw [hr, hr'] at hT; exact hT.elim
+    | fail l' p' =>
+      rw [hr, hr'] at hT
+      rw [hr] at h1; rw [hr'] at h1'
+      simp only
+      rw [hT.1, column_agree h1 h1' h hT.2]
+    | oob => rw [hr, hr'] at hT; exact hT.elim
+    | nofuel => rw [hr, hr'] at hT; exact hT.elim
+  | oob => rw [hr] at h1; exact h1.elim
+  | nofuel => rw [hr] at h1; exact h1.elim
 
 end Nstd.Json
